@@ -84,5 +84,5 @@ def check(ctx):
         explanation='Verus proves on the real text of ElementRaw::calc_element_insert_range, for every element type, sub-element name, version, child list and any table contents satisfying wf_tables()/wf_modes(), its strongest postcondition (which children are compared, where the scan ends, when it fails) and from it lemma_range_is_exact: for children in specification order inside a sequence, inserting at p keeps the order <==> p lies in the reported range; create_sub_element_at succeeds only inside the range, inserts exactly at the position and changes nothing else, and a refused call leaves the content unchanged; set_attribute_internal / set_attribute_string succeed only for an attribute listed for the type whose version mask contains the file version and a value acceptable for its spec, and replace-or-append exactly that attribute. The specification lookups these functions call are checked against the contracts that unit lookups proves on their real text. The element graph itself (locks, parent links, path index, copy / move / remove, several files) is out of reach: the node is modelled by the fields these functions read, a child element is an opaque handle. As a bounded stand-in for the statement over histories, editing scripts run through the public API on every element type of the specification in up to 21 versions, against an oracle computed from the specification lookups, followed by serialize -> lenient load -> serialize.',
         checker_cmd='verus generated/{insertrange,attrset}.rs; vxnative ground lib {tables_wf,tables_modes}; vxnative api editconform 200000 <seed> survey; vxnative api editprobe <name>',
         trusted_base=['Verus 0.2026.09.13 + Z3', 'the reading of the node: ElementRaw as {elemname, elemtype, content: Vec, attributes: Vec}, child handles with uninterpreted name/type (the real accessors take the child lock)',
-                      'find_sub_element is a function of its arguments (it reads only immutable statics)', 'Vec<usize>::cmp is the lexicographic order (vx_lex_cmp is verified against lex_cmp)',
+                      'Vec<usize>::cmp is the lexicographic order (vx_lex_cmp is verified against lex_cmp)',
                       'the oracle of api editconform is pairwise: it does not look at required-but-absent sub-elements (neither does the loader)'])
